@@ -238,5 +238,5 @@ def residual_routine_contract():
 
 
 def contracts():
-    out = [residual_routine_contract()] + [routine_contract(r) for r in ROUTINES] + [routine_contract("unroll", pytree=True), routine_contract("via_jvp", pytree=True), doubling_contract()]
+    out = [residual_routine_contract()] + [routine_contract(r) for r in ROUTINES] + [routine_contract("unroll", pytree=True), routine_contract("via_jvp", pytree=True), routine_contract("padded_scan", pytree=True), doubling_contract()]
     return out
